@@ -3,6 +3,7 @@
 use crate::bddx::conv as conv_raw;
 use crate::oracle::*;
 use crate::report::*;
+use crate::mid::Oracle;
 use crate::src_adf::*;
 use adf_bdd::adf::Adf;
 use adf_bdd::adfbiodivine::Adf as BdAdf;
@@ -121,12 +122,17 @@ pub fn sem_case(prop: &str, text: &str, tts: &[TT], out: &mut Found, st: &mut St
 
 /// `sorting` is applied after parsing; `labels` are the labels in declaration order (index = position in `tts`)
 pub fn sem_case_p(prop: &str, text: &str, tts: &[TT], sorting: usize, labels: &[String], out: &mut Found, st: &mut Stats) {
-    sem_case_inner(prop, text, tts, sorting, labels, out, st);
+    sem_case_o(prop, text, &Oracle::from_tts(tts), sorting, labels, out, st)
+}
+
+/// the general form: the definitional answers are given as an `Oracle` (from truth tables or from formulas)
+pub fn sem_case_o(prop: &str, text: &str, orc: &Oracle, sorting: usize, labels: &[String], out: &mut Found, st: &mut Stats) {
+    sem_case_inner(prop, text, orc, sorting, labels, out, st);
     VARMAP.with(|vm| *vm.borrow_mut() = None);
 }
 
-fn sem_case_inner(prop: &str, text: &str, tts: &[TT], sorting: usize, labels: &[String], out: &mut Found, st: &mut Stats) {
-    let n = tts.len();
+fn sem_case_inner(prop: &str, text: &str, orc: &Oracle, sorting: usize, labels: &[String], out: &mut Found, st: &mut Stats) {
+    let n = orc.n;
     st.cases += 1;
     let parser = AdfParser::default();
     let parsed = guard(|| parser.parse()(text).is_ok());
@@ -155,20 +161,9 @@ fn sem_case_inner(prop: &str, text: &str, tts: &[TT], sorting: usize, labels: &[
     }
     match prop {
         "C01" => {
-            let want = grounded(tts);
+            let want = orc.grounded.clone();
             st.outcomes.insert(hash64(&want));
-            // rounds needed by the definition
-            let mut v = vec![U; n];
-            let mut rounds = 0;
-            loop {
-                let w = gamma(tts, &v);
-                if w == v {
-                    break;
-                }
-                v = w;
-                rounds += 1;
-            }
-            if rounds >= 2 {
+            if orc.rounds >= 2 {
                 st.nontrivial += 1;
             }
             let mut chk = |label: &str, r: Option<Vec<Term>>, out: &mut Found| {
@@ -202,8 +197,8 @@ fn sem_case_inner(prop: &str, text: &str, tts: &[TT], sorting: usize, labels: &[
             chk("biodivine(rewrite)", r, out);
         }
         "C02" => {
-            let want = complete(tts);
-            let grd = grounded(tts);
+            let want = orc.complete.clone();
+            let grd = orc.grounded.clone();
             st.outcomes.insert(hash64(&set_vec(&want).concat()));
             if want.len() >= 2 {
                 st.nontrivial += 1;
@@ -238,8 +233,8 @@ fn sem_case_inner(prop: &str, text: &str, tts: &[TT], sorting: usize, labels: &[
             }
         }
         "C03" => {
-            let want = stable(tts);
-            let two = models2(tts);
+            let want = orc.stable.clone();
+            let two = orc.two.clone();
             st.outcomes.insert(hash64(&set_vec(&want).concat()).wrapping_add(want.len() as u64));
             if want.len() >= 2 || (two.len() > want.len()) {
                 st.nontrivial += 1;
@@ -299,8 +294,8 @@ fn sem_case_inner(prop: &str, text: &str, tts: &[TT], sorting: usize, labels: &[
             }
         }
         "C04" => {
-            let want = stable(tts);
-            let two = models2(tts);
+            let want = orc.stable.clone();
+            let two = orc.two.clone();
             st.outcomes.insert(hash64(&set_vec(&want).concat()).wrapping_add(want.len() as u64));
             if want.len() >= 2 || (two.len() > want.len()) {
                 st.nontrivial += 1;
@@ -344,6 +339,7 @@ fn sem_case_inner(prop: &str, text: &str, tts: &[TT], sorting: usize, labels: &[
 
 pub fn run_sem(run: &Run) {
     crate::fam::writers_selfcheck();
+    crate::mid::selfcheck();
     let prop = run.prop.clone();
     run.set_rule(match prop.as_str() {
         "C01" => "every ADF of each named family (complete enumeration, index order) is written to input text, parsed and built on every back-end; the grounded interpretation of each is compared with the brute-force least fixpoint of Gamma. Non-trivial: ADFs whose least fixpoint needs >= 2 rounds (some statement is decided only through another one).",
@@ -366,7 +362,10 @@ pub fn run_sem(run: &Run) {
             |st, k| {
                 let c = src.get(k);
                 let mut out = vec![];
-                sem_case_p(&prop, &c.text, &c.tts, c.sorting, &c.labels, &mut out, st);
+                match &c.formulas {
+                    Some(l) => sem_case_o(&prop, &c.text, &Oracle::from_formulas(l), c.sorting, &c.labels, &mut out, st),
+                    None => sem_case_p(&prop, &c.text, &c.tts, c.sorting, &c.labels, &mut out, st),
+                }
                 for (kind, msg) in out {
                     run.violation(&kind, format!("{} on {}{}", msg, c.text, ["", " (varsort_lexi)", " (varsort_alphanum)"][c.sorting]), src.describe(k));
                 }
@@ -413,6 +412,11 @@ pub fn replay_sem(prop: &str, case: &Value) -> Found {
         .as_array()
         .map(|a| a.iter().map(|x| x.as_str().unwrap_or("").to_string()).collect())
         .unwrap_or_else(|| crate::fam::names(tts.len()));
+    if let Some(r) = case.get("ring") {
+        let l = crate::mid::ring(r["n"].as_u64().unwrap_or(6) as usize, r["index"].as_u64().unwrap_or(0));
+        sem_case_o(prop, &text, &Oracle::from_formulas(&l), case["sorting"].as_u64().unwrap_or(0) as usize, &l.labels, &mut out, &mut st);
+        return out;
+    }
     sem_case_p(prop, &text, &tts, case["sorting"].as_u64().unwrap_or(0) as usize, &labels, &mut out, &mut st);
     out
 }
